@@ -1108,7 +1108,7 @@ func init() {
 			"the claims hold on the stated lattices only; nothing is claimed between lattice points",
 		},
 		Tasks: func(tier string) []mc.Task { return append(c20Tasks(tier), c20CLITasks()...) },
-		Post:  func(m *mc.Master) { m.RacePass("gamma") },
+		Post:  func(m *mc.Master) { m.RacePass("gamma"); m.RacePass("first/gamma") },
 		Replay: func(c *mc.Ctx, payload json.RawMessage) {
 			if c20CLIReplay(c, payload) {
 				return
